@@ -19,7 +19,7 @@ UNITS = {
     'producer': {'template': 'units/producer/unit.rs', 'serves': ['C10'], 'min_verified': 24},
     'deshred': {'template': 'units/deshred/unit.rs', 'serves': ['C11', 'C13'], 'min_verified': 12},
     'ingest': {'template': 'units/ingest/unit.rs', 'serves': ['C12', 'C13', 'C16', 'C14', 'C10'], 'min_verified': 21},
-    'sampler': {'template': 'units/sampler/unit.rs', 'serves': ['C17', 'C16'], 'min_verified': 38},
+    'sampler': {'template': 'units/sampler/unit.rs', 'serves': ['C17', 'C16'], 'min_verified': 85},
     'engine': {'template': 'units/engine/unit.rs', 'serves': ['C20'], 'min_verified': 18},
     'trie': {'template': 'units/trie/unit.rs', 'serves': ['C20'], 'min_verified': 95},
     'a2a': {'template': 'units/a2a/unit.rs', 'serves': ['C09', 'C10'], 'min_verified': 16},
